@@ -39,7 +39,7 @@ def meta_fs(fixture_key):
 
 
 def make_meta_text(fixture_key, nap, ns, shank_of=None, size_fields="complete",
-                   claimed_ns=None, fs=None, ap_gains=None, time_decimals=None):
+                   claimed_ns=None, fs=None, ap_gains=None, time_decimals=None, sha1=None, flip_sites=False):
     """
     :param nap: number of AP channels (one sync channel is appended)
     :param ns: number of frames the metadata describes (when size_fields != 'none')
@@ -85,9 +85,14 @@ def make_meta_text(fixture_key, nap, ns, shank_of=None, size_fields="complete",
             ents = re.findall(r"\(([0-9]+) ([0-9]+) ([0-9]+) ([0-9]+) ([0-9]+) ([0-9]+)\)", v)
             ents = [(e[0], e[1], e[2], str(int(ap_gains[i])) if i < len(ap_gains) else e[3], e[4], e[5]) for i, e in enumerate(ents)]
             v = head + "".join("(" + " ".join(e) + ")" for e in ents)
+        elif kk == "fileSHA1" and sha1 is not None:
+            v = sha1
         elif kk == "snsShankMap":
             head = re.match(r"\([0-9,]*\)", v).group(0)
             ents = re.findall(r"\(([0-9]*):([0-9]*):([0-9]*):([0-9]*)\)", v)[:nap]
+            if flip_sites:
+                # sites numbered from the top of the probe downwards: channel i sits where channel nap-1-i sat
+                ents = ents[::-1]
             if shank_of is not None:
                 ents = [(str(int(shank_of[i])), e[1], e[2], e[3]) for i, e in enumerate(ents)]
             v = head + "".join(f"({a}:{b}:{c}:{d})" for a, b, c, d in ents)
@@ -145,16 +150,19 @@ def make_data(data_seed, ns, nap, saturate=None, amp=600, maxint=8192, smooth=Fa
 
 
 def write_recording(folder, stem, fixture_key, data, shank_of=None, size_fields="complete",
-                    claimed_ns=None, fs=None, ap_gains=None, time_decimals=None):
+                    claimed_ns=None, fs=None, ap_gains=None, time_decimals=None, flip_sites=False):
     """Writes <stem>.ap.bin and <stem>.ap.meta into folder; returns bin path."""
     folder = Path(folder)
     folder.mkdir(parents=True, exist_ok=True)
     ns, nc = data.shape
     bin_file = folder / f"{stem}.ap.bin"
     data.tofile(bin_file)
+    import hashlib
     (folder / f"{stem}.ap.meta").write_text(
         make_meta_text(fixture_key, nc - 1, ns, shank_of=shank_of, size_fields=size_fields,
-                       claimed_ns=claimed_ns, fs=fs, ap_gains=ap_gains, time_decimals=time_decimals)
+                       claimed_ns=claimed_ns, fs=fs, ap_gains=ap_gains, time_decimals=time_decimals,
+                       sha1=hashlib.sha1(data.tobytes()).hexdigest().upper(),      # the acquisition software records the file's true SHA-1
+                       flip_sites=flip_sites)
     )
     return bin_file
 
